@@ -402,12 +402,18 @@ def invert_rule(ctx, r):
     mp = facts.fn("rg::flags::hiargs::HiArgs::matches_possible")
     ebm = ExprBuilder(mp)
     HI_ = "rg::flags::hiargs::HiArgs"
-    inv_sw = cond_switches(mp, lambda y: is_field(strip(y), HI_, "invert_match"), ebm)
     rows = {}
+    from ..flow import with_default as _wd
     for empty, invert in ((1, 0), (1, 1), (0, 0), (0, 1)):
-        removed = {(x[2] if invert else x[1]) for x in inv_sw}
-        sx = Sccp(mp, call_model=lambda c, a, empty=empty: I(empty) if c.path.endswith("Vec::is_empty") else None,
-                  removed_edges=removed).run([(0, {})])
+        # (self.invert_match has the row's value wherever it is read; max_count is not limiting)
+        def fm_(o_, n_, invert=invert):
+            if o_ == HI_ and n_ == "invert_match":
+                return I(invert)
+            if o_ == HI_ and n_ == "max_count":
+                return V("None", None)
+            return None
+        sx = Sccp(mp, call_model=_wd(lambda c, a, empty=empty: I(empty) if c.path.endswith("Vec::is_empty") else None),
+                  field_model=fm_).run([(0, {})])
         rows[(empty, invert)] = {x for v in sx.ret_values.values() for x in value_set(v)}
     if rows[(1, 0)] == {I(0)} and rows[(1, 1)] != {I(0)} and rows[(0, 0)] != {I(0)} and rows[(0, 1)] != {I(0)}:
         r.ok("possible|empty", "matches_possible: no patterns ⇒ false only when the match is not inverted", fn=mp)
